@@ -57,6 +57,8 @@ def strategy(cls, tier):
             "load": fl(-0.5, 0.5),
             "extra": st.lists(st.sampled_from(["pointload", "bodyforce", "pressure", "mpc"]), min_size=0, max_size=3, unique=True),
             "mu": fl(0.5, 3), "bulk": st.sampled_from([2.0, 20.0, 200.0]),
+            # one step that pushes the moved face through the fixed one: the state cannot be evaluated (log of a negative volume ratio)
+            "huge": st.sampled_from([False] * 5 + [True]),
         }
     )
 
@@ -140,6 +142,8 @@ def build(cls, case, fem):
     nc = min(case["ncomp"], f0.dim)
     scale = 0.01 if cls == "history-plastic" else (0.3 if cls in ("mixed", "condensed") else 1.0)
     vals = [scale * case["move"][k] * (float(np.ptp(X[:, 0]))) for k in range(nc)]
+    if case.get("huge") and cls in ("nonlinear", "loads", "history-or") and dim == 3:
+        vals[0] = -(1.2 + abs(case["move"][0])) * float(np.ptp(X[:, 0]))
     pointwise = None
     if case["arrayvalue"] and nc >= 2 and case["pseed"] % 3 == 0:
         # one boundary with one value per (selected point, component): a Fortran-ordered 2-d array (e.g. np.array([ux, uy]).T)
@@ -229,6 +233,8 @@ def check(cls, case, rec):
         res = fem.newtonrhapson(x0=x0, items=items, dof0=dof0, dof1=dof1, ext0=ext0, tol=tol, maxiter=maxiter)
     except ValueError as e:
         rec.label("raised")
+        if case.get("huge") and cls in ("nonlinear", "loads", "history-or") and info["dim"] == 3:
+            rec.label("raised-for-a-step-through-the-fixed-face")
         rec.nontrivial = True
         if (cls == "linear" or (info["dim"] == 2 and cls == "nonlinear")) and maxiter >= 1 and tol >= 1e-10 and case["start"] != "perturbed":
             # a linear problem is solved by the first update (whatever the start state and the item multiplier)
@@ -237,6 +243,8 @@ def check(cls, case, rec):
             rec.require("no-commit-on-failure", np.array_equal(np.asarray(body.results.statevars), pre_state))
         return
     rec.label("returned")
+    if case.get("huge") and cls in ("nonlinear", "loads", "history-or") and info["dim"] == 3:
+        rec.label("returned-for-a-step-through-the-fixed-face")
     rec.label(f"iterations={min(res.iterations, 6)}")
     rec.nontrivial = res.iterations >= 2
     rec.require("success-flag", res.success is True or res.success == True)  # noqa
